@@ -377,7 +377,24 @@ def rule_label(ctx):
     if n_sites < 10:
         raise AnalysisError("R-LABEL: only %d label-defining sites found" % n_sites)
     # generated definition names: lift must consult used_labels in a retry loop around fresh_identifier
-    fn = Fn(fx.fn("core2axcut::statements::cut::lift"))
+    lift_key = "core2axcut::statements::cut::lift"
+    fn = Fn(fx.fn(lift_key))
+    # the retry loop may live in a helper of core2axcut that lift calls (two levels): the body that consults used_labels
+    cands, seen_k = [lift_key], {lift_key}
+    for depth in range(2):
+        for k0 in list(cands):
+            for _, t in Fn(fx.fns[k0]).calls():
+                k2 = t.get("resolved_key") or (t.get("callee_key") if not t.get("callee_trait") else None)
+                if k2 in fx.fns and fx.fns[k2]["crate"] == "core2axcut" and k2 not in seen_k and "{closure" not in k2 and \
+                        t.get("callee_name") not in ("shrink", "lift"):
+                    seen_k.add(k2)
+                    cands.append(k2)
+    for k0 in cands:
+        f0 = Fn(fx.fns[k0])
+        if any(t.get("callee_name") == "contains" and "HashSet" in (t.get("callee_self") or "") for _, t in f0.calls()) and \
+                any(t.get("callee_name") == "fresh_identifier" for _, t in f0.calls()):
+            fn = f0
+            break
     flow = Flow(fn)
     fresh = [bi for bi, t in fn.calls() if t.get("callee_name") == "fresh_identifier"]
     cont = []
